@@ -21,7 +21,8 @@
 //! Operations:
 //! `conn ka=<Y|N>.. [remote=accept|refuse|stall]` | `run` | `downgrade <i>` | `upgrade <i>` |
 //! `drop_handle <i>` | `local_open <i>` | `force_close <i>` | `remote_open <j|x> hdr|full` |
-//! `remote_continue <k> <j|x>` | `remote_reset <k>` | `remote_close` | `remote_policy <p>` |
+//! `remote_continue <k> <j|x>` | `remote_reset <k>` | `remote_close` | `remote_goaway` |
+//! `remote_policy <p>` |
 //! `drop_sub <i>` | `pause <i>` | `resume <i>` | `drop_rx <i>` | `arrange_race <k>`.
 //!
 //! Observation after every operation:
@@ -366,7 +367,8 @@ impl Conn {
 
     /// Is anything on its way between the two sockets? `None`: cannot tell.
     fn in_flight(&self) -> Option<bool> {
-        self.in_flight_raw().map(|now| now != self.base)
+        // a FIN is counted by the receiver only, so "behind" is the only direction that matters
+        self.in_flight_raw().map(|now| now.0 > self.base.0 || now.1 > self.base.1)
     }
 
     fn flagged(&self, local: bool) -> bool {
@@ -654,10 +656,15 @@ impl LoopBox {
                 field("p0="),
                 field("m=")
             );
-            if text.ends_with(" stuck") {
+            let stuck = text.ends_with(" stuck");
+            if stuck {
                 outcome.push_str("/stuck");
             }
             *outcomes.entry(outcome).or_default() += 1;
+            if stuck {
+                // every further round would wait for the deadline as well
+                break;
+            }
         }
         let mut list: Vec<(String, usize)> = outcomes.into_iter().collect();
         list.sort();
@@ -821,8 +828,18 @@ impl LoopBox {
                     None => "none".into(),
                 }
             }
-            ["remote_close"] => match conn.remote.take() {
-                Some(remote) => {
+            ["remote_close"] | ["remote_goaway"] => match conn.remote.take() {
+                Some(mut remote) => {
+                    if t[0] == "remote_goaway" {
+                        // graceful: yamux go-away, then the connection driver finishes by itself
+                        conn.remote = Some(remote);
+                        let mut control = conn.remote.as_ref().expect("set").control.clone();
+                        conn.jobs.push(Job::new(false, async move {
+                            let _ = control.close().await;
+                        }));
+                        conn.settle(false, |_| true).await;
+                        remote = conn.remote.take().expect("set");
+                    }
                     conn.jobs.retain(|j| j.local);
                     drop(remote);
                     // the FIN has reached the local socket once it has left `ESTABLISHED`
